@@ -408,6 +408,61 @@ def scenario(rng, reqs, kt, n_req=1, force=None, tx_dt=0, rqs=None):
     return {'retries': retries, 'delay': delay, 'script': script, 'reqs': rqs, 'plan': plan, 'plans': plans, 'idle_before': idle_before}
 
 
+def fixed_monver_scenarios():
+    """Fixed corpus (no random choice): MON-VER polls answered correctly and at once by MON-VER frames of particular shapes -
+    no / one / many extension strings, texts that look like key=value pairs with and without a value, and the largest frame
+    the parser accepts (32 extensions = exactly 1000 payload bytes). On the scripted subclass and on the serial backend."""
+    from . import reflect as R
+    import random
+    rq = next(r for r in all_requests(random.Random(0), R.message_table(), R.key_tables()) if r.label == 'UbxMonVerPoll')
+    head = b'ROM CORE 3.01 (107888)'.ljust(30, b'\0') + b'00080000'.ljust(10, b'\0')
+    def ext(t):
+        return t.ljust(30, b'\0')
+    pays = [('no-extension', head),
+            ('usual', head + ext(b'FWVER=HPS 1.21') + ext(b'PROTVER=19.20') + ext(b'MOD=NEO-M8U-0')),
+            ('key-without-value', head + ext(b'PROTVER') + ext(b'FWVER') + ext(b'MOD')),
+            ('key-with-empty-value', head + ext(b'PROTVER=') + ext(b'FWVER=') + ext(b'GPS;GLO;GAL;BDS')),
+            ('value-not-a-number', head + ext(b'PROTVER=abc') + ext(b'PROTVER 18.00') + ext(b'PROTVER=18.00=1')),
+            ('31-extensions', head + b''.join(ext(b'EXT%02d=%d' % (k, k)) for k in range(31))),
+            ('32-extensions-1000-bytes', head + b''.join(ext(b'EXT%02d=%d' % (k, k)) for k in range(32)))]
+    out = []
+    for name, pay in pays:
+        answer = G.frame(0x0A, 0x04, pay)
+        for backend in ('stub', 'tty'):
+            sc = {'retries': 1, 'delay': 2500, 'reqs': [rq], 'plan': [('good', 1, False)], 'plans': [[('good', 1, False)]],
+                  'script': {'pending': [], 'attempts': [(True, [(answer, 1)]), (True, [])], 'idle': 13}}
+            if backend == 'tty':
+                sc = dict(sc, script=Q.bytewise(sc['script']), backend='tty', bauds=(115200, None))
+            out.append((name + '/' + backend, sc))
+    return out
+
+
+def fixed_split_answer_scenarios():
+    """Fixed corpus (no random choice): the two halves of the answer to a configuration poll arrive in DIFFERENT attempts -
+    the ACK-ACK alone in one, the response alone in the next (and the other way round, and with a silent attempt in between):
+    no attempt contains a complete answer, nothing may be returned."""
+    from . import reflect as R
+    import random
+    kt = R.key_tables()
+    rng = random.Random(0)
+    reqs = [r for r in all_requests(rng, R.message_table(), kt) if r.op == 'poll' and r.cid[0] == 6]
+    picked = []
+    for r in reqs:
+        if r.label not in [x.label for x in picked]:
+            picked.append(r)
+    out = []
+    for rq in picked[:6]:
+        frames, _ = good_answer(rng, rq, kt, 'ack')
+        resp, ack = frames[0], frames[1]
+        for name, atts in (('ack-then-response', [ack, resp]), ('response-then-ack', [resp, ack]), ('ack-silence-response', [ack, b'', resp]),
+                           ('ack-response-ack', [ack, resp, ack]), ('ack-ack-response', [ack, ack, resp])):
+            sc = {'retries': len(atts) - 1, 'delay': 100, 'reqs': [rq], 'plan': [(name, k + 1) for k in range(len(atts))],
+                  'script': {'pending': [], 'attempts': [(True, [(a_, 1)] if a_ else []) for a_ in atts], 'idle': 13}}
+            sc['plans'] = [sc['plan']]
+            out.append((name + '/' + rq.label, sc))
+    return out
+
+
 def model_cmd(sc, sk):
     head = 'reqs'
     if sc.get('backend') == 'gpsd':
